@@ -237,6 +237,69 @@ def reactor_request_context(a1: int, a2: int, two: bool, cid: int) -> bool:
 
 
 # ------------------------------------------------------------------------------------------------
+# One layer further out again: the request arrives as P-DATA, its PDVs labelled with presentation context IDs by the
+# peer.  The real DIMSEMessage.decode_msg reassembles it; the context the message "arrived on" is the one of its command
+# set (PS3.8: all PDVs of a message belong to one context; a peer that labels the data-set PDVs differently must not be
+# able to move the request onto another - accepted - context).
+from pynetdicom.dimse_messages import C_STORE_RQ  # noqa: E402
+from pynetdicom.pdu_primitives import P_DATA  # noqa: E402
+
+
+def _store_pdata(cmd_cid, data_cid):
+    """P-DATA primitives of a valid C-STORE-RQ (real encoder, concrete), PDV context ids replaced."""
+    with untraced():
+        req = mk_request("C_STORE")
+        m = C_STORE_RQ()
+        m.primitive_to_message(req)
+        frags = [list(p.presentation_data_value_list) for p in m.encode_msg(1, 0)]
+    out = []
+    for pdvs in frags:
+        p = P_DATA()
+        lst = []
+        for _cid, data in pdvs:
+            is_command = (data[0] & 1) == 1
+            lst.append([cmd_cid if is_command else data_cid, data])
+        p.presentation_data_value_list = lst
+        out.append(p)
+    return out
+
+
+@harness(
+    "C19",
+    timeout=(90, 600),
+    functions=["dimse:DIMSEServiceProvider.receive_primitive", "dimse_messages:DIMSEMessage.decode_msg",
+               "dimse_messages:DIMSEMessage.message_to_primitive", "association:Association._run_reactor",
+               "association:Association._serve_request"],
+    bounds="a valid C-STORE request delivered as P-DATA whose command-set PDVs carry context ID cmd_cid and whose data-set PDVs "
+           "carry data_cid (both any value 0..255, solver-symbolic); one accepted context with any odd ID",
+    stubs=_STUBS + ["assoc.dimse is the real DIMSEServiceProvider with the real DIMSEMessage (send_msg recording); one real "
+                    "_run_reactor iteration"],
+    outside="more than one message; PDVs of other messages interleaved",
+)
+def pdata_context_labels(a1: int, cmd_cid: int, data_cid: int) -> bool:
+    """
+    pre: 1 <= a1 <= 255 and a1 % 2 == 1
+    pre: 0 <= cmd_cid <= 255 and 0 <= data_cid <= 255
+    post: _ == True
+    """
+    with untraced():
+        assoc = make_assoc(MODE_ACCEPTOR)
+        assoc.dimse = make_recv_dimse(assoc)
+        calls = []
+        bind_all(assoc, calls)
+    assoc._accepted_cx = _accepted(sop_of("C_STORE"), a1, a1, False)
+    for p in _store_pdata(cmd_cid, data_cid):
+        assoc.dimse.receive_primitive(p)
+    if assoc.dimse.msg_queue.qsize() != 1:
+        return False
+    queued_cid = assoc.dimse.msg_queue.queue[0][0]
+    if not (queued_cid == cmd_cid):
+        return False                      # the message belongs to the context of its command set
+    run_reactor_iterations(assoc, am, 1)
+    return _judge(assoc, calls, "C_STORE", cmd_cid, [a1])
+
+
+# ------------------------------------------------------------------------------------------------
 # C-STORE sub-operation requests received by the *requestor* while its C-GET / C-MOVE is running.
 class SubopPeer(RecordingDimse):
     """The peer's messages during a C-GET: one C-STORE request on `cid`, then the final C-GET response."""
